@@ -126,7 +126,8 @@ def class_case(draw):
     return {"sys": s, "alg": alg, "ordmax": ordmax, "ordmin": draw(st.integers(0, ordmax)), "br": draw(st.integers(8, 14)),
             "N": draw(st.integers(1500, 3000)), "seed": draw(st.integers(0, 2**32 - 1)), "noise": draw(st.sampled_from([0.02, 0.2])),
             "err_fn": draw(st.sampled_from([0.01, 0.05])), "err_xi": draw(st.sampled_from([0.05, 0.3])), "err_phi": draw(st.sampled_from([0.03, 0.2])),
-            "nxseg": draw(st.sampled_from([128, 256]))}
+            "nxseg": draw(st.sampled_from([128, 256])), "unc": draw(st.integers(0, 2)) == 0, "covq": draw(st.sampled_from([0.3, 0.6, 0.9])),
+            "keyorder": draw(st.permutations(["err_fn", "err_xi", "err_phi"]))}
 
 
 def judge_class(case):
@@ -134,18 +135,33 @@ def judge_class(case):
     S = modal.Sys(case["sys"])
     Y = modal.random_response(S, case["N"], case["seed"], noise=case["noise"])
     ss = SingleSetup(Y, fs=S.fs)
-    sc = dict(err_fn=case["err_fn"], err_xi=case["err_xi"], err_phi=case["err_phi"])
+    sc = {k_: case[k_] for k_ in case.get("keyorder", ["err_fn", "err_xi", "err_phi"])}  # the user's own key order
     an = case["alg"]
     j.tag(an)
+    unc = an == "SSIcov" and bool(case.get("unc"))
     if an == "pLSCF":
         alg = pLSCF(name="a", ordmax=case["ordmax"], ordmin=case["ordmin"], nxseg=case["nxseg"], sc=sc)
     else:
         cls = SSIcov if an == "SSIcov" else SSIdat
-        alg = cls(name="a", br=case["br"], ordmax=case["ordmax"], ordmin=case["ordmin"], sc=sc)
+        kw = dict(name="a", br=case["br"], ordmax=min(case["ordmax"], 10) if unc else case["ordmax"], ordmin=min(case["ordmin"], 10) if unc else case["ordmin"], sc=sc)
+        if unc:
+            # a covariance limit that really rejects poles: a quantile of the variances of a first, unrestricted run
+            probe = SSIcov(name="p", calc_unc=True, nb=10, hc=dict(conj=True, xi_max=0.1, mpc_lim=0.7, mpd_lim=0.3, cov_max=1e300), **{k_: v for k_, v in kw.items() if k_ != "name"})
+            ss.add_algorithms(probe)
+            rp = sut(ss.run_by_name, "p")
+            cv = None if raised(rp) else np.asarray(probe.result.Fn_poles_cov)
+            if cv is None or not np.isfinite(cv).any():
+                unc = False
+            else:
+                kw.update(calc_unc=True, nb=10, hc=dict(conj=True, xi_max=0.1, mpc_lim=0.7, mpd_lim=0.3, cov_max=float(np.nanquantile(cv, case.get("covq", 0.5)))))
+                j.tag("calc_unc")
+        alg = cls(**kw)
     ss.add_algorithms(alg)
     r = sut(ss.run_by_name, "a")
     if not j.check(not raised(r), "class-run-raises", lambda: f"{r!r}"):
         return j
+    if an != "pLSCF":
+        case = dict(case, ordmax=kw["ordmax"], ordmin=kw["ordmin"])
     res = alg.result
     Fn, Xi, Phi, Lab = np.asarray(res.Fn_poles), np.asarray(res.Xi_poles), np.asarray(res.Phi_poles), np.asarray(res.Lab)
     C = Fn.shape[1]
